@@ -212,7 +212,9 @@ theorem lex_phrase (first : List Char) (more : More) (rest : List Char) (ts : Li
 
 /-! ### Rendering in projection form -/
 
-theorem render_litF (l : Literal) (ws : Layout) : render (.lit l) ws = (renderNumber l, ws) := by
+theorem render_litF (l : Literal) (ws : Layout) :
+    render (.lit l) ws = if l.percent then (renderNumber l ++ blank1 ws ++ ['%'], rest1 ws)
+      else (renderNumber l, ws) := by
   simp only [render]
 
 theorem render_factF (first : List Char) (more : More) (ws : Layout) :
@@ -247,10 +249,13 @@ structure StartOK (glue : Bool) (c : Char) : Prop where
 theorem render_headF : ∀ (e : FExpr) (ws : Layout), WFF e →
     ∃ c r, (render e ws).1 = c :: r ∧ StartOK (gluesToSign e) c
   | .lit l, ws, h => by
-    obtain ⟨c, r, hr, hc, hsg⟩ := renderNumber_head l h.1
+    obtain ⟨c, r, hr, hc, hsg⟩ := renderNumber_head l h
     rw [render_litF]
-    refine ⟨c, r, hr, (operandStart_facts c hc).1, (operandStart_facts c hc).2, fun hg => ?_⟩
-    exact signedStart_facts c (hsg hg)
+    split
+    · exact ⟨c, r ++ (blank1 ws ++ ['%']), by simp [hr], (operandStart_facts c hc).1,
+        (operandStart_facts c hc).2, fun hg => signedStart_facts c (hsg hg)⟩
+    · exact ⟨c, r, hr, (operandStart_facts c hc).1, (operandStart_facts c hc).2,
+        fun hg => signedStart_facts c (hsg hg)⟩
   | .fact first more, ws, h => by
     obtain ⟨c, r, rfl, hw, hd⟩ := wordLit_head h.1
     rw [render_factF]
@@ -294,10 +299,27 @@ theorem after_opF {b2 sb r rest : List Char} {c : Char} {g : Bool} (hb : Blank b
 theorem lex_f : ∀ (e : FExpr) (ws : Layout) (rest : List Char) (ts : List Token),
     WFF e → LayoutOKF e ws → ExprStop rest → Lexes rest ts →
     Lexes ((render e ws).1 ++ rest) (toksF e ws ++ ts)
-  | .lit l, ws, rest, ts, hwf, _, hs, h => by
+  | .lit l, ws, rest, ts, hwf, hl, hs, h => by
     rw [render_litF]
-    simp only [toksF, List.cons_append, List.nil_append]
-    exact lex_number hwf.1 (exprStop_numStop hs) h
+    simp only [toksF]
+    by_cases hp : l.percent = true
+    · simp only [hp, ↓reduceIte, List.append_assoc, List.cons_append, List.nil_append]
+      have hb := hl hp
+      refine lex_number hwf ?_ (lex_blank hb (head_cons (by decide)) (lex_pct h))
+      intro c r hcr
+      cases hbl : blank1 ws with
+      | nil =>
+        rw [hbl] at hcr
+        simp only [List.nil_append, List.cons.injEq] at hcr
+        rw [← hcr.1]; decide
+      | cons x b' =>
+        rw [hbl] at hcr
+        simp only [List.cons_append, List.cons.injEq] at hcr
+        obtain ⟨a1, a2, a3, a4, _⟩ := ws_not_num (hb x (by simp [hbl]))
+        rw [← hcr.1]; exact ⟨a1, a2, a3, a4⟩
+    · have hp' : l.percent = false := by simpa using hp
+      simp only [hp', Bool.false_eq_true, ↓reduceIte, List.cons_append, List.nil_append]
+      exact lex_number hwf (exprStop_numStop hs) h
   | .fact first more, ws, rest, ts, hwf, _, hs, h => by
     rw [render_factF]
     simp only [toksF]
@@ -341,7 +363,7 @@ theorem lex_queryF (e : FExpr) (ws : Layout) (hwf : WFF e) (h : QueryLayoutOKF e
 /-! ### The default layout is admissible -/
 
 theorem afterF_nil : ∀ e : FExpr, (render e []).2 = []
-  | .lit l => by rw [render_litF]
+  | .lit l => by rw [render_litF]; split <;> rfl
   | .fact f m => by rw [render_factF]
   | .bin op a b => by
     rw [render_binF]
@@ -352,7 +374,7 @@ theorem afterF_nil : ∀ e : FExpr, (render e []).2 = []
     simp only [afterF, rest1_nil, afterF_nil e]
 
 theorem layoutOKF_nil : ∀ e : FExpr, LayoutOKF e []
-  | .lit _ => trivial
+  | .lit _ => fun _ => blank_default
   | .fact _ _ => trivial
   | .bin op a b => by
     simp only [LayoutOKF, afterF, afterF_nil a, rest1_nil]
